@@ -10,7 +10,7 @@ import genexpr
 import implexpr
 
 ARGS = implexpr.ARGS
-GLOB = {"GL": 7, "y": 1000, "cl": 77}
+GLOB = {"GL": 7, "y": 1000, "cl": 77, "format": 1234}
 CLOSURE = {"cl": 5}
 COMP_KINDS = ("ListComp", "SetComp", "DictComp", "GeneratorExp")
 
@@ -638,7 +638,7 @@ def check_surface(case, io):
     if io["file"] not in loc:
         fails.append("the location %r does not name the file of the declaration" % loc)
     layout = case.get("layout", "oneline")
-    span = {"oneline": 0, "description": 0, "keyword": 0, "neighbours": 0, "nested": 0, "multiline": 3 + case["expr"].count("\n") + 4,
+    span = {"oneline": 0, "description": 0, "keyword": 0, "neighbours": 0, "nested": 0, "in_init": 0, "multiline": 3 + case["expr"].count("\n") + 4,
             "comments": 3}[layout]
     import re
     m = re.search(r"line (\d+)", loc)
